@@ -953,6 +953,12 @@ class Executor:
             return {"len": inner["len"], "get": lambda ex, i: inner["get"](ex, inner["len"] - 1 - i)}
         if isinstance(it, PList):
             return {"len": z3.IntVal(len(it.items)), "get": lambda ex, i: ex.plist_get_sym(it, i)}
+        if isinstance(it, _Zip):
+            inners = [self.as_indexable(x) for x in it.inners]
+            n = inners[0]["len"]
+            for x in inners[1:]:
+                n = z3.If(x["len"] < n, x["len"], n)
+            return {"len": z3.simplify(n), "get": lambda ex, i: tuple(x["get"](ex, i) for x in inners)}
         from . import grid as G
         if isinstance(it, G.SRowVal):
             return {"len": it.ln, "get": lambda ex, i: SRef(z3.Select(it.arr, i), it.cls)}
@@ -1149,7 +1155,9 @@ class Executor:
                 parts.append(v.value)
             else:
                 if v.format_spec is not None or v.conversion not in (-1, 115):
-                    raise Unsupported("f-string format spec")
+                    self.eval(v.value, env)  # evaluated for its safety obligations; the formatted text is opaque
+                    parts.append(SStr(z3.String(fresh_name("fmt"))))
+                    continue
                 parts.append(self.to_str(self.eval(v.value, env), v.lineno))
         return self.concat_strs(parts)
 
@@ -1855,6 +1863,8 @@ class Executor:
         from . import grid as G
         if isinstance(y, G.SGrid):
             G.append(self, y, v, e.lineno)
+        elif isinstance(y, Custom):
+            y.method(self, "append", [v], {}, e.lineno)
         else:
             y.items.append(v)
         return None
@@ -2257,7 +2267,9 @@ class Executor:
         node = self.finfo.node
         try:
             if _is_generator(node):
-                if c.yield_grid:
+                if c.yield_view is not None:
+                    body_env["__yielded__"] = c.yield_view(self)
+                elif c.yield_grid:
                     from . import grid as G
                     body_env["__yielded__"] = G.SGrid.empty(c.yield_grid)
                 else:
